@@ -36,7 +36,7 @@ ASSUMPTIONS = [
     "file-name legality is judged against an independent statement of the UFO 'user name to file name' rules (illegal characters, reserved DOS names, no leading period, 255 characters, uniqueness ignoring case)",
     "designspace equality ignores the document's own path/filename and requires formatVersion to be monotone (the writer raises it when the content needs it)",
 ]
-EXPECTED_PROBES = ["A.backend.zip", "A.backend.osfs", "A.reopen", "A.glyph_readback", "A.ci", "A.clash_candidate", "B.roundtrip", "C.roundtrip", "N.names"]
+EXPECTED_PROBES = ["A.failglyph", "A.backend.zip", "A.backend.osfs", "A.reopen", "A.glyph_readback", "A.ci", "A.clash_candidate", "B.roundtrip", "C.roundtrip", "N.names"]
 
 TIERS = {
     "quick": {"budget_s": 150, "determinism_sample": 16, "n": {"ufo": 9000, "designspace": 2500, "plist": 6000, "names": 6000}, "minimise_s": 40, "max_minimise": 4},
@@ -503,7 +503,7 @@ def generate(ctx, batch, idx):
         fv = r.choice([3, 3, 3, 2, 1])
         ops = []
         n = r.randint(2, 16)
-        kinds = ["glyph"] * 8 + ["delglyph", "contents", "rebuild", "layerinfo", "info", "kerning", "lib", "features", "data", "reopen", "reopen"]
+        kinds = ["glyph"] * 8 + ["failglyph", "failglyph", "delglyph", "contents", "rebuild", "layerinfo", "info", "kerning", "lib", "features", "data", "reopen", "reopen"]
         if fv >= 3:
             kinds += ["newlayer", "newlayer", "renamelayer", "dellayer", "image", "setdefault"]
         for _ in range(n):
@@ -548,6 +548,16 @@ def execute(ctx, h):
         return res
     finally:
         logging.disable(lvl)
+
+
+def _same_file_other_case(name):
+    """Another glyph name whose UFO file name equals that of `name` ignoring case (upper-case letters get
+    an underscore appended in file names: "A" and "a_" both want a_.glif on a case-insensitive system)."""
+    return "".join(c.lower() + "_" if c != c.lower() else c for c in name)
+
+
+class InjectedDrawError(RuntimeError):
+    pass
 
 
 class Rejected(Exception):
@@ -744,10 +754,12 @@ def _exec_ufo(ctx, h, holder):
                     layer = r.choice(layers)
                     gs = gset(layer)
                     glyphs = model["layers"].setdefault(layer, {})
-                    if h.get("clash") and glyphs and r.random() < 0.5:
-                        # a name that differs from an existing one only by case / clash handling
-                        base = r.choice(sorted(glyphs))
-                        gname = r.choice([base.upper(), base.lower(), base.swapcase(), base + "_", base[:200] + base[:60]])
+                    pool = sorted(set(glyphs) | set(state.get("failed", [])))
+                    if h.get("clash") and pool and r.random() < 0.5:
+                        # a name that differs from an existing one (or one whose write failed) only by case /
+                        # clash handling, or that maps to the same file name ignoring case ("A" -> A_.glif, "a_")
+                        base = r.choice(pool)
+                        gname = r.choice([base.upper(), base.lower(), base.swapcase(), base + "_", base[:200] + base[:60], _same_file_other_case(base)])
                         probes["A.clash_candidate"] = probes.get("A.clash_candidate", 0) + 1
                     else:
                         gname = gen_name(r)
@@ -757,6 +769,57 @@ def _exec_ufo(ctx, h, holder):
                     gs.writeGlyph(gname, glyph_object(g), draw_points(g))
                     glyphs[gname] = gseed
                     res["nontrivial"] = True
+                elif name == "failglyph":
+                    # a glyph write that fails part-way: the caller's draw callback raises, or the disk is
+                    # full. The operation failed, so the glyph set must be as if it had not been attempted
+                    # (a new name must not stay behind in contents; a replaced glyph keeps its old data),
+                    # and the names handed out afterwards stay unique ignoring case.
+                    layers = [ly for ly in (model["order"] if fv >= 3 else [None]) if fv >= 3 or ly in state["gsets"] or True]
+                    if layers:
+                        layer = r.choice(layers)
+                        gs = gset(layer)
+                        glyphs = model["layers"].setdefault(layer, {})
+                        pool = sorted(set(glyphs) | set(state.get("failed", [])))
+                        if pool and r.random() < 0.6:
+                            base = r.choice(pool)
+                            gname = r.choice([base, base.upper(), base.lower(), base.swapcase(), base + "_", _same_file_other_case(base)])
+                        else:
+                            gname = gen_name(r)
+                        gname = fsname(gname)
+                        g = gen_glyph(r.randrange(1 << 30), glifv)
+                        mode = r.choice(["draw", "draw", "disk"] if fs is not None else ["draw"])
+                        inner = draw_points(g)
+
+                        def failing_draw(pen):
+                            if inner is not None:
+                                inner(pen)
+                            raise InjectedDrawError("injected: the draw callback failed")
+
+                        raised = None
+                        try:
+                            if mode == "draw":
+                                gs.writeGlyph(gname, glyph_object(g), failing_draw)
+                            else:
+                                fs.fail_next_write = True
+                                gs.writeGlyph(gname, glyph_object(g), inner)
+                        except InjectedDrawError as e:
+                            raised = e
+                        except OSError as e:
+                            if "injected" not in str(e):
+                                raise
+                            raised = e
+                        finally:
+                            if fs is not None:
+                                fs.fail_next_write = False
+                        res["faults"]["writeGlyph." + mode] = res["faults"].get("writeGlyph." + mode, 0) + 1
+                        if raised is not None:
+                            probes["A.failglyph"] = probes.get("A.failglyph", 0) + 1
+                            state.setdefault("failed", []).append(gname)
+                            if gname not in glyphs and gname in gs:
+                                fail("failed-writeGlyph-leaves-phantom-entry", "writeGlyph(%r) raised %s, yet the glyph set now lists the glyph (file %r) although no such glyph was written" % (gname[:40], type(raised).__name__, gs.contents.get(gname, "")[:40]))
+                        # (when nothing raised — identical data already on disk — the glyph was simply not rewritten)
+                        elif gname not in glyphs:
+                            glyphs[gname] = None  # unreachable in practice: a new glyph always needs a write
                 elif name == "delglyph":
                     cands = [(ly, g) for ly, gl in model["layers"].items() for g in gl if ly in state["gsets"]]
                     if cands:
